@@ -81,6 +81,58 @@ def mutate_tokens(rng, src, other):
     return "".join(toks)
 
 
+# type positions: every type name of a seed program may be written through an alias or a definition (the parser and the
+# checker must treat `Zahlenreihe` like `Zahlen Liste` and must not assume the concrete Go type of a ddptypes.Type)
+TYPE_PRELUDE = (
+    "Wir nennen eine Zahl auch eine Ganzzahl.\n"
+    "Wir nennen eine Kommazahl auch eine Fliesszahl.\n"
+    "Wir nennen einen Text auch eine Zeichenfolge.\n"
+    "Wir nennen einen Buchstaben auch ein Zeichen.\n"
+    "Wir nennen einen Wahrheitswert auch einen Schalter.\n"
+    "Wir nennen eine Zahlen Liste auch eine Zahlenreihe.\n"
+    "Wir nennen eine Text Liste auch eine Textreihe.\n"
+    "Wir nennen eine Kommazahlen Liste auch eine Kommareihe.\n"
+    "Wir nennen eine Buchstaben Liste auch eine Zeichenreihe.\n"
+    "Wir nennen eine Zahlenreihe auch eine Zahlenreihe2.\n"
+    "Wir definieren eine Strecke als eine Zahl.\n"
+    "Wir definieren eine Streckenreihe als eine Zahlen Liste.\n"
+    "Wir definieren einen Namen als einen Text.\n"
+)
+TYPE_SUBST = [
+    (r"\bZahlen Liste\b", ["Zahlenreihe", "Zahlenreihe2", "Streckenreihe", "Ganzzahl Liste", "Strecke Liste"]),
+    (r"\bText Liste\b", ["Textreihe", "Zeichenfolge Liste", "Namen Liste"]),
+    (r"\bKommazahlen Liste\b", ["Kommareihe", "Fliesszahl Liste"]),
+    (r"\bBuchstaben Liste\b", ["Zeichenreihe", "Zeichen Liste"]),
+    (r"\bZahl\b", ["Ganzzahl", "Strecke"]),
+    (r"\bKommazahl\b", ["Fliesszahl"]),
+    (r"\bText\b", ["Zeichenfolge", "Namen"]),
+    (r"\bBuchstaben?\b", ["Zeichen"]),
+    (r"\bWahrheitswert\b", ["Schalter"]),
+]
+TYPE_SNIPPETS = [
+    "Die Zahlenreihe z ist 5 Mal 0.\n", "Die Zahlenreihe2 z ist 2 Mal 1.\n", "Die Streckenreihe z ist 3 Mal 0.\n", "Die Textreihe t ist 2 Mal \"a\".\n",
+    "Die Zahlenreihe z ist eine leere Zahlen Liste.\n", "Die Zahlenreihe z ist eine leere Zahlenreihe.\n", "Die Zahlenreihe z ist eine Liste, die aus 1, 2 besteht.\n",
+    "Die Zahlenreihe z ist 2 Mal 0.\nDie Zahl n ist z an der Stelle 1.\nSpeichere 3 in z an der Stelle 2.\nFür jede Zahl e in z, mache:\n\tSpeichere e in n.\n",
+    "Die Strecke s ist 1 als Strecke.\nDie Zahl n ist s als Zahl.\nDie Zahlen Liste q ist 2 Mal 0.\nDie Streckenreihe r ist q als Streckenreihe.\nDie Zahlenreihe p ist r als Zahlenreihe.\n",
+    "Die Funktion f mit dem Parameter z vom Typ Zahlenreihe Referenz, gibt eine Zahlenreihe zurück, macht:\n\tGib z zurück.\nUnd kann so benutzt werden:\n\t\"f <z>\"\nDie Zahlenreihe a ist 1 Mal 1.\nDie Zahlenreihe b ist f a.\n",
+    "Die Zeichenfolge t ist \"abc\".\nDas Zeichen c ist t an der Stelle 1.\nSpeichere 'x' in t an der Stelle 2.\nDie Zeichenfolge u ist t im Bereich von 1 bis 2.\nDie Zeichenfolge w ist t ab dem 2. Element.\nDie Zahl l ist die Länge von t.\n",
+    "Wir nennen die Kombination aus\n\tder Zahlenreihe z mit Standardwert 2 Mal 0,\n\tder Strecke s mit Standardwert 0 als Strecke,\neinen Halter, und erstellen sie so:\n\t\"ein Halter\"\nDer Halter h ist ein Halter.\nDie Zahl n ist (z von h) an der Stelle 1.\n",
+    "Die generische Funktion g mit dem Parameter l vom Typ T Liste, gibt ein T zurück, macht:\n\tGib l an der Stelle 1 zurück.\nUnd kann so benutzt werden:\n\t\"g <l>\"\nDie Zahlenreihe z ist 1 Mal 7.\nDie Zahl n ist g z.\nDie Streckenreihe r ist z als Streckenreihe.\nDie Strecke e ist g r.\n",
+    "Die Zahlenreihe q ist 2 Mal 0.\nDie Variable v ist q als Variable.\nDie Zahlenreihe z ist v als Zahlenreihe.\nDie Zahlenreihe2 y ist v als Zahlenreihe2.\n",
+    "Die Zahlenreihe z ist 2 Mal 0.\nDie Zahlenreihe y ist z verkettet mit z.\nDie Zahlenreihe x ist z verkettet mit 1.\nDer Wahrheitswert w ist z gleich y ist.\n",
+]
+
+
+def mutate_types(rng, src):
+    """write some of the type names of a program through aliases / definitions declared in front of it"""
+    out = src
+    for pat, reps in TYPE_SUBST:
+        def sub(m, reps=reps):
+            return rng.choice(reps) if rng.random() < 0.5 else m.group(0)
+        out = re.sub(pat, sub, out)
+    return TYPE_PRELUDE + out
+
+
 def mutate_bytes(rng, src):
     b = bytearray(src.encode("utf-8"))
     if not b:
@@ -211,6 +263,15 @@ def main():
         for _ in range(rng.choice([1, 1, 1, 2, 3])):
             m = mutate_tokens(rng, m, rng.choice(sd)[1])
         inputs.append(("tok%d" % k, f if rng.random() < 0.5 else os.path.join(sc, "t.ddp"), m.encode("utf-8", "surrogatepass") if isinstance(m, str) else m, "token-mutant"))
+    for k, snip in enumerate(TYPE_SNIPPETS):
+        inputs.append(("tsnip%d" % k, os.path.join(sc, "ts.ddp"), (TYPE_PRELUDE + snip).encode(), "type-snippet"))
+    n_type = 400 if ck.quick else 6000
+    for k in range(n_type):
+        f, s = rng.choice(sd)
+        m = mutate_types(rng, s)
+        if rng.random() < 0.5:
+            m = mutate_tokens(rng, m, TYPE_PRELUDE + rng.choice(TYPE_SNIPPETS))
+        inputs.append(("type%d" % k, f if rng.random() < 0.5 else os.path.join(sc, "ty.ddp"), m.encode("utf-8", "surrogatepass"), "type-mutant"))
     for k in range(n_byte):
         f, s = rng.choice(sd)
         if len(s) > 6000:
@@ -279,7 +340,7 @@ def main():
     ck.cov.update(dict(
         inputs=len(reqs), kinds=kinds, answered_with_diagnostics=n_diag, parsed_clean=n_clean, seeds=len(sd), exhaustive=False,
         explanation="PARTIAL: Coq proves termination of the parser's driving loops over an abstract declaration parser with a progress contract (Props/C03.v) and, in other properties, of the scanner (C13), the module loader (C10), literal unescaping (C19) and the renderer's indexing (C07). Crash-freedom of ~10k lines of recursive-descent Go (nil dereference, type assertion, stack exhaustion) cannot be stated in a total Gallina model; it is explored: %d inputs (token mutants, byte mutants incl. invalid UTF-8, hand-written near-miss snippets, import arrangements, unmutated seeds) parsed by the real frontend in sacrificial workers." % len(reqs),
-        rule="inputs = corpus + snippets + token-level mutants (delete/duplicate/swap/splice/truncate/insert) and byte-level mutants of %d seed files + import arrangements; non-trivial = answered with at least one diagnostic or parsed clean after mutation; distinct by input id" % len(sd)))
+        rule="inputs = corpus + snippets + token-level mutants (delete/duplicate/swap/splice/truncate/insert), type-position mutants (type names written through aliases/definitions, `n Mal x` and cast/index/generic snippets over aliased list types) and byte-level mutants of %d seed files + import arrangements; non-trivial = answered with at least one diagnostic or parsed clean after mutation; distinct by input id" % len(sd)))
     ck.sample(dict(kind="snippet", source=SNIPPETS[0]))
     ck.sample(dict(kind="imports", arrangement="cycle of length 3"))
     ck.finish()
